@@ -5,7 +5,7 @@ PID = "C02"
 
 def main(tier, seed):
     return tprops.main_T(PID, tier, seed, {13, 14, 18}, "Props.C02",
-                         ["Model/Ticker.v", "Model/Component.v", "Oracle/TickerOracle.v", "Model/Sim.v", "Proofs/TickerP.v", "Proofs/ExtentP.v", "Props/C02.v"],
+                         ["Model/Ticker.v", "Model/Component.v", "Oracle/TickerOracle.v", "Model/Sim.v", "Proofs/TickerP.v", "Proofs/ExtentP.v", "Model/PyLib.v", "Gen/SourceFuns.v", "Proofs/GenOutChangesP.v", "Props/C02.v"],
                          "exactly the roots and the changed-input closure are updated", with_dc=True)
 
 
